@@ -8,10 +8,9 @@ Walk(rec, acc, k, out) ==
   ELSE LET a2 == StepCall(rec, acc, k) IN
        Walk(rec, a2, k + 1, Append(out, [call |-> k, spec |-> ShowS(a2.s), ok14 |-> a2.ok14, okArgs |-> a2.okArgs, drift |-> a2.drift, dead |-> a2.dead,
                                          lines |-> IF rec.calls[k].op = "write" THEN WriteIni(acc.s, SeqToSet(rec.calls[k].iniOpts)) ELSE <<>>]))
-DInit == l = 1 /\ bad = [p \in Props |-> {}] /\ stat = [k \in StatKeys |-> 0] /\ j = <<>>
+DInit == l = 1
 DNext == /\ l <= Len(TraceRecs) /\ l' = l + 1
          /\ PrintT(<<"SPEC", l, ToJson(Walk(TraceRecs[l], Acc0(TraceRecs[l]), 1, <<>>))>>)
-         /\ j' = Judge(TraceRecs[l]) /\ PrintT(<<"JUDGE", l, j'>>)
-         /\ UNCHANGED <<bad, stat>>
-DSpec == DInit /\ [][DNext]_<<l, bad, stat, j>>
+         /\ PrintT(<<"JUDGE", l, Judge(TraceRecs[l])>>)
+DSpec == DInit /\ [][DNext]_l
 =============================================================================
